@@ -19,7 +19,7 @@ META = {
     "assumptions": ["reference model gives the expected start of every operation under the drawing's durations (compact: the drawing's own registry, otherwise the "
                     "current global settings); two-qubit gates drawn side by side may be offset by at most 0.25 x duration^2 (documented artistic offset)"],
     "floors": {
-        "quick": {"drawings": 3800, "placements_checked": 20000, "rows_checked": 30000, "snapshots_compared": 3800, "unknown_channel_rejected": 300,
+        "quick": {"drawings": 3800, "placements_checked": 20000, "rows_checked": 30000, "snapshots_compared": 3800, "unknown_channel_rejected": 300, "unknown_channel_zero_rejected": 40,
                   "compact_under_nondefault_global": 800, "label_maps_checked": 1000, "isolated_cphase_dots_checked": 300, "barrier_extents_checked": 400},
         "thorough": {"drawings": 38000, "placements_checked": 200000, "snapshots_compared": 38000, "unknown_channel_rejected": 3000},
     },
@@ -99,7 +99,14 @@ def gen_case(rng: random.Random, cls: str) -> Dict[str, Any]:
     elif order_mode == "prefix":
         order = rng.sample(qubits, rng.randint(0, len(qubits))) if qubits else []
     elif order_mode == "unknown":
-        order = rng.sample(qubits, min(len(qubits), 1)) + [77]
+        # the unknown channel varies: a far index, a negative one, or a small unoccupied index (0 when the circuit leaves it free),
+        # alone or among known channels, at any position of the requested order (seeded change C18-r11: a truthiness test let 0 through)
+        free = [q for q in range(0, 8) if q not in qubits]
+        pool = [77, -1] + free + ([0] * 3 if 0 in free else [])
+        unknown_channels = [rng.choice(pool)] + ([rng.choice(pool)] if rng.random() < 0.2 else [])
+        order = rng.sample(qubits, rng.randint(0, len(qubits))) if qubits else []
+        for u in unknown_channels:
+            order.insert(rng.randint(0, len(order)), u)
     labels = None
     if rng.random() < 0.5:
         labels = {str(q): f"L{q}" for q in qubits if rng.random() < 0.7}
@@ -175,6 +182,8 @@ def check_program(prog: Dict[str, Any], acc: Acc, flags=None):
         if unknown:
             if isinstance(raised, ValueError):
                 acc.count("unknown_channel_rejected")
+                if 0 in opt["order"] and 0 not in occupied:
+                    acc.count("unknown_channel_zero_rejected")
             else:
                 acc.finding("order/unknown-channel-accepted", "an unknown channel in the requested order is not rejected with a ValueError", case,
                             {"raised": type(raised).__name__ if raised else None})
